@@ -1106,6 +1106,10 @@ class WorkerPool:
         if self._progress_bar_handler is not None:
             self._progress_bar_handler.set_exception(RuntimeError("Pool was terminated"))
 
+        # Workers that showed a progress bar wait for the bar to complete before they exit. There's nothing to wait for
+        # anymore
+        self._worker_comms.signal_progress_bar_complete()
+
         # When we're working with threads we have to wait for them to join. We can't kill threads in Python
         if self.pool_params.start_method == 'threading':
             # Workers that weren't created or started yet (we got interrupted while starting them) can't be joined
